@@ -59,7 +59,8 @@ Inductive obs :=
 
 Record texp := mkExp {
   e_obs : list obs; e_reply : reply; e_flag : bool;
-  e_um : option text; e_bm : option text; e_ti : option rail; e_to : option rail }.
+  e_um : option text; e_bm : option text; e_ti : option rail; e_to : option rail;
+  e_utter : list text }.      (* scripts of the StartUtteranceBotAction events the runtime returned (event level) *)
 
 Definition side_eqb (a b : side) : bool := match a, b with SIn, SIn | SOut, SOut => true | _, _ => false end.
 Definition lkind_eqb (a b : lkind) : bool :=
@@ -119,7 +120,8 @@ Definition check_turn_v1 (r : pstate * list tev * reply) (e : texp) : bool :=
   list_eqb obs_match (trace_obs tr) (e_obs e) && reply_eqb rp (e_reply e) &&
   Bool.eqb (skip st) (e_flag e) &&
   option_eqb String.eqb (user_message st) (e_um e) && option_eqb String.eqb (bot_message st) (e_bm e) &&
-  option_eqb Nat.eqb (trig_in st) (e_ti e) && option_eqb Nat.eqb (trig_out st) (e_to e).
+  option_eqb Nat.eqb (trig_in st) (e_ti e) && option_eqb Nat.eqb (trig_out st) (e_to e) &&
+  list_eqb String.eqb (emitted tr) (e_utter e).
 
 Definition check_v1 (c : cfg * list turn_case * list texp) : bool :=
   let '(cf, turns, exps) := c in
@@ -129,7 +131,8 @@ Definition check_turn_v2 (r : pstate2 * list tev * reply) (e : texp) : bool :=
   let '(st, tr, rp) := r in
   list_eqb obs_match (trace_obs tr) (e_obs e) && reply_eqb rp (e_reply e) &&
   Bool.eqb (orip st) (e_flag e) &&
-  option_eqb String.eqb (um2 st) (e_um e) && option_eqb String.eqb (bm2 st) (e_bm e).
+  option_eqb String.eqb (um2 st) (e_um e) && option_eqb String.eqb (bm2 st) (e_bm e) &&
+  list_eqb String.eqb (emitted tr) (e_utter e).
 
 Definition check_v2_with (fixd : bool) (c : cfg2 * list turn_case * list texp) : bool :=
   let '(cf, turns, exps) := c in
